@@ -27,7 +27,7 @@
 (* of the Debye sum: per-frame reset of the rows, fresh accumulators per   *)
 (* call).                                                                  *)
 (***************************************************************************)
-EXTENDS Integers, FiniteSets, Sequences, TLC
+EXTENDS Integers, FiniteSets, Sequences, TLC, Chunk
 
 CONSTANTS N1, N2,       \* numbers of sites of the two types (self: N2 = N1)
           NC,           \* num_chunks (the "nthreads" argument)
@@ -44,11 +44,10 @@ Tasks  == 0 .. NC - 1
 Threads == 0 .. NT - 1
 
 \* ---------------------------------------------------------------- _chunk
-CeilDiv(a, b) == (a + b - 1) \div b
-Min(a, b) == IF a < b THEN a ELSE b
-ChunkSize(n, c) == CeilDiv(n, c)
+\* CeilDiv, Min, ChunkSize, ChunkLo, ChunkHi: spec/Chunk.tla (shared with ChunkInd.tla, where the partition statement below is
+\* discharged for every n and c by Apalache)
 \* row t of the chunk table: [start, end); rows beyond the data stay [0, 0)
-ChunkRow(n, c, t) == LET s == ChunkSize(n, c) IN IF t * s < n THEN <<t * s, Min((t + 1) * s, n)>> ELSE <<0, 0>>
+ChunkRow(n, c, t) == <<ChunkLo(n, c, t), ChunkHi(n, c, t)>>
 InRow(n, c, t, i) == ChunkRow(n, c, t)[1] <= i /\ i < ChunkRow(n, c, t)[2]
 ASSUME ChunkPartition ==
     \A n \in 1 .. 12, c \in 1 .. 14 :
